@@ -36,6 +36,7 @@ pred wfLog(f int) :=
     && (forall k :: 0 <= k && k < recN(f) ==> recOffset(f, k) >= 0)
     && (forall j, k :: 0 <= j && j <= k && k < recN(f) ==> recTs(f, j) <= recTs(f, k))
     && recN(f) <= 1152921504606846976
+    && (forall k :: 0 <= k && k < recN(f) ==> recHash(f, k) == keyHash(recKey(f, k)))
 
 // message m is record k of file f (content equality: bytes, not slice identity)
 pred isRec(m Message, f int, k int) :=
